@@ -277,6 +277,11 @@ func runC11(c *C11Case) error {
 		if err != nil && h.IsInconclusive(err) {
 			return err
 		}
+		if err != nil && strings.Contains(err.Error(), "missing partitions") {
+			// a subquery's cluster query found a partition without a registered
+			// harness handler: fixture matter
+			return fmt.Errorf("%w: %v", h.ErrInconclusive, err)
+		}
 		if err == nil && res.Stats != nil && (res.Stats.NumSuccessfulPartitions != c.N || len(res.Stats.MissingPartitions) > 0) {
 			// the harness's own handlers failed to answer: not a verdict on the plan
 			return fmt.Errorf("%w: partitions not all successful: %+v", h.ErrInconclusive, res.Stats)
